@@ -14,6 +14,7 @@ BAD = 99999999
 
 RROUTE = [0]
 SPAT = [-1]
+SMAG = [-1]
 
 
 def make_resize(darsia, tgt, cons):
@@ -237,6 +238,19 @@ def events(darsia, rng, shapes, quick, arrangements):
         other = rng.choice(by_len[n])
         ax = i % 2
         h = rng.choice([[1.0, 1.0], [0.5, 0.25], [2.0, 0.5]])
+        # (magnitudes in turn: ordinary; the images a million voxel sizes away from zero; sub-nanometre voxels; inexact voxel sizes)
+        SMAG[0] += 1
+        base_xy = [10.0, 20.0]
+        hclass = "dyadic"
+        if SMAG[0] % 4 == 1:
+            base_xy = [1e6 * h[1], 2e6 * h[0]]
+        elif SMAG[0] % 4 == 2:
+            h = [x * 2.0 ** -30 for x in h]            # (a power of two: positions stay exactly representable)
+            base_xy = [10.0 * h[1], 20.0 * h[0]]
+        elif SMAG[0] % 4 == 3:
+            # voxel sizes that are not dyadic fractions (0.1, 0.3, 3/70): quotients of lengths carry round-off
+            h = rng.choice([[0.1, 0.3], [0.3 / 7, 0.9], [0.7, 0.1]])
+            hclass = "inexact-voxel-size"
         same = all(tuple(x) == tuple(arr[0]) for x in arr) and rng.random() < 0.5
         imgs, recs, offs = [], [], []
         for j in range(n):
@@ -255,13 +269,13 @@ def events(darsia, rng, shapes, quick, arrangements):
             elif SPAT[0] % 4 == 3:
                 a = a - 4.0
             # voxel (0,0) of image j sits at canvas voxel off: origin shifted by off * h (rows go down: y decreases)
-            origin = [10.0 + off[1] * h[1], 20.0 - off[0] * h[0]]
+            origin = [base_xy[0] + off[1] * h[1], base_xy[1] - off[0] * h[0]]
             imgs.append(image(darsia, a, h, origin=origin))
             recs.append({"shape": list(shp), "off": off, "data": ints(a)})
             offs.append(off)
         cshape = [max(r["off"][0] + r["shape"][0] for r in recs), max(r["off"][1] + r["shape"][1] for r in recs)]
         low = [min(o[0] for o in offs), min(o[1] for o in offs)]
-        e = {"tid": f"superpose:{i}", "op": "superpose", "imgs": recs, "cshape": cshape, "raised": 0, "res": [], "rshape": [], "dims_kept": 0, "n": n,
+        e = {"tid": f"superpose:{i}", "op": "superpose", "imgs": recs, "cshape": cshape, "raised": 0, "res": [], "rshape": [], "dims_kept": 0, "n": n, "hclass": hclass,
              "samegrid": int(all(o == offs[0] for o in offs) and len({tuple(r["shape"]) for r in recs}) == 1)}
         if low != [0, 0]:
             # the arrangement of the second axis need not touch the low end: shift the records (the canvas starts at the lowest image)
@@ -274,8 +288,10 @@ def events(darsia, rng, shapes, quick, arrangements):
                 out = darsia.superpose(imgs)
             e["res"] = ints(out.img)
             e["rshape"] = list(out.img.shape)
-            e["dims_kept"] = int(np.allclose(out.dimensions, [cshape[0] * h[0], cshape[1] * h[1]])
-                                 and np.allclose(np.asarray(out.origin), [10.0 + low[1] * h[1], 20.0 - low[0] * h[0]]))
+            # (placement judged in voxel sizes, whatever their magnitude)
+            e["dims_kept"] = int(np.allclose(np.asarray(out.dimensions) / np.asarray(h), [cshape[0], cshape[1]], rtol=0, atol=1e-6)
+                                 and np.allclose((np.asarray(out.origin) - np.asarray([base_xy[0] + low[1] * h[1], base_xy[1] - low[0] * h[0]])) / np.asarray([h[1], h[0]]),
+                                                 0.0, rtol=0, atol=1e-6))
         except Exception as ex:  # noqa
             e["raised"] = 1
             e["error"] = repr(ex)[:160]
@@ -311,6 +327,8 @@ def run(ck, replay=None):
             extra = ":constant" if e.get("constant") else ":odd-extent"
         if e["op"] == "reduce":
             extra = f":{len(e['shape'])}d"
+        if e["op"] == "superpose" and e.get("hclass", "dyadic") != "dyadic":
+            extra = ":" + e["hclass"]
         ck.violation(f"C11:{b['clause']}:{e['op']}{extra}", f"{e['op']} violates {b['clause']}", {k: v for k, v in e.items() if k not in ("data", "res", "back", "imgs")})
     ck.cov["evaluations"] = len(ev)
     ck.cov["distinct_nontrivial"] = len({(e["op"], tuple(e.get("shape", [])), json.dumps(e.get("k")), e.get("f"), e.get("ax"), e.get("mode"), e.get("n")) for e in ev})
